@@ -40,6 +40,22 @@ theorem C08_outcome_panic (reg : List Nat) (it : ReqItem) (m : Nat) (hr : reg.co
     itemResult reg it = { op := it.op, uid := it.uid, status := statusFailed, reason := generalFailure, msg := some (panicMsg m), payload := none } := by
   simp only [itemResult, hr, hb, if_true]
 
+/-- a handler that returns a first result together with its error: the item is that failure - the error's message and reason,
+    General Failure when it has none - and carries NO payload -/
+theorem C08_outcome_error_with_value (reg : List Nat) (it : ReqItem) (m : Nat) (rs : Option Nat) (e : Bool)
+    (hr : reg.contains it.op = true) (hb : it.beh = .errorWith m rs e) :
+    itemResult reg it = { op := it.op, uid := it.uid, status := statusFailed, reason := rs.getD generalFailure, msg := some m, payload := none } := by
+  simp only [itemResult, hr, hb, if_true]
+
+/-- ... and what that first result was - encodable or not - changes neither the item's result nor whether the response can be
+    written: the outcome is exactly that of the handler returning the error alone -/
+theorem C08_error_value_irrelevant (reg : List Nat) (it : ReqItem) (m : Nat) (rs : Option Nat) (e : Bool)
+    (hb : it.beh = .errorWith m rs e) :
+    itemResult reg it = itemResult reg { it with beh := match rs with | none => .error m | some r => .errorReason m r } ∧
+    itemEncodable reg it = true := by
+  unfold itemResult itemEncodable
+  cases rs <;> simp [hb] <;> split <;> simp
+
 theorem C08_outcome_no_handler (reg : List Nat) (it : ReqItem) (hr : reg.contains it.op = false) :
     itemResult reg it = { op := it.op, uid := it.uid, status := statusFailed, reason := operationNotSupported, msg := some msgNotSupported, payload := none } := by
   simp only [itemResult, hr]
@@ -69,6 +85,9 @@ theorem C08_calls_belong (cfg : Cfg) (k : Nat) (ra : Option Nat) (i : Nat) (item
       · simp at he; exact ⟨i, it.op, it.payload, cfg.sessionId, sessVal cfg.sessionAuth, he⟩
       · simp at he
     · exact ih (i + 1) e he
+
+example : itemResult [18] { op := 18, uid := [1], payload := 7, beh := .errorWith 4 none false } =
+    { op := 18, uid := [1], status := 1, reason := 0x100, msg := some 4, payload := none } := by decide
 
 example : itemResult [18] { op := 18, uid := [1], payload := 7, beh := .panic 3 } =
     { op := 18, uid := [1], status := 1, reason := 0x100, msg := some 2000003, payload := none } := by decide
